@@ -170,6 +170,14 @@ func execTwo(s *scenario) string {
 	upd := genA.UpdateBlockTime(tA.Block) == nil && genA.UpdateExtraNonce(tA.Block, s.nextH, 0x7654321) == nil
 	ua = btcutil.NewBlock(tA.Block)
 	ua.SetHeight(s.nextH)
+	if upd && tB != nil {
+		// ... and so does the miner working on B, with another extra nonce
+		bytesA2 := blockBytes(tA.Block)
+		if genB.UpdateBlockTime(tB.Block) != nil || genB.UpdateExtraNonce(tB.Block, s.nextH, 0xabcdef012345) != nil ||
+			!selfConsistent(tB, s.nextH) || !bytes.Equal(blockBytes(tA.Block), bytesA2) {
+			upd = false
+		}
+	}
 	if upd {
 		if err := ci.chain.CheckConnectBlockTemplate(ua); err != nil {
 			dbg("updated template A: %v", err)
